@@ -23,6 +23,7 @@ func init() {
 		ruleColdRead(c, "C03.T7")
 		ruleR3(c, "C03.T8")
 		ruleStale(c, "C03.T9")
+		ruleT10(c, "C03.T10")
 	}
 }
 
@@ -1054,4 +1055,48 @@ func fhFieldOf(v ssa.Value) string {
 		}
 	}
 	return ""
+}
+
+// ruleT10: a request takes effect, and reads what it reports, at one point: its
+// handler ends with one committed transaction.  A handler that commits a
+// transaction and begins another one serves one request from two states of the
+// file system - between the two, the locks are free and other requests run (a
+// READ assembled from two transactions returns bytes no single moment held).
+// Transactions of the shrinker's helping steps (begun in package shrinker) are
+// self-contained by C01.R6 and exempt; transactions that were aborted do not
+// count.
+func ruleT10(c *Ctx, id string) {
+	R, P := c.R, c.P
+	R.Rule(id, "one request, one committed transaction: in the handlers of package nfs no transaction is begun after a transaction of the same request was committed (aborted attempts and the shrinker's own steps apart)", 20)
+	t := c.tsPreamble(id)
+	type agg struct {
+		bad bool
+		why string
+		pos string
+	}
+	res := map[string]*agg{}
+	for _, e := range sortedEvents(t, "rebegin") {
+		if !isProc(c, e.Entry) || relPkg(e.Fn) == "shrinker" {
+			continue
+		}
+		key := fmt.Sprintf("%s|begin@%s|%s", e.Entry, FuncName(ownerOf(e.Fn)), useOrdinal(e))
+		a := res[key]
+		if a == nil {
+			a = &agg{pos: P.Pos(e.Pos)}
+			res[key] = a
+		}
+		if e.Bad && !strings.Contains(e.Txn, "shrinker/") {
+			a.bad = true
+			a.why = e.Detail + " (via " + e.St.Via + "; stack " + e.Stack + ")"
+		}
+	}
+	var keys []string
+	for k := range res {
+		keys = append(keys, k)
+	}
+	sort.Strings(keys)
+	for _, k := range keys {
+		a := res[k]
+		R.Check(!a.bad, id, k, a.pos, "no transaction of the request is committed when this one begins", "only aborted or untouched predecessors on every explored path", a.why+": the request is served from two states of the file system")
+	}
 }
